@@ -30,6 +30,7 @@ import (
 	"strconv"
 	"strings"
 	"sync"
+	"sync/atomic"
 	"testing"
 	"time"
 
@@ -56,6 +57,10 @@ type c28Case struct {
 	Reload       bool   `json:"reload,omitempty"` // also call Config.Reload() on the unchanged files
 	// request mode
 	Reqs []c28Req `json:"reqs,omitempty"`
+	// Drain: after the requests the SUT is shut down (Router.Stop,
+	// DirectTransmission.Stop); the shutdown must return and every accepted event
+	// must have been forwarded or reported as an error.
+	Drain bool `json:"drain,omitempty"`
 	// Tag (hand-kept regression cases only) is appended to every signature this
 	// case produces, so that a regression of a FIXED defect can never be masked by
 	// a known finding that happens to panic in the same function.
@@ -430,6 +435,7 @@ type c28Outcome struct {
 	Kind   string // answered | closed | timeout | unsendable | spin | blocked
 	Status string
 	Detail string
+	Body   string // first bytes of an HTTP response body
 }
 
 func c28EndpointLabel(r c28Req) string {
@@ -490,12 +496,13 @@ func c28DoHTTP(ctx context.Context, addr string, r c28Req, body []byte, ct, ce s
 		}
 		return c28Outcome{Kind: "closed", Status: err.Error()}
 	}
+	head, _ := io.ReadAll(io.LimitReader(resp.Body, 4096))
 	_, rerr := io.Copy(io.Discard, io.LimitReader(resp.Body, 8<<20))
 	resp.Body.Close()
 	if rerr != nil && ctx.Err() != nil {
 		return c28Outcome{Kind: "timeout", Status: rerr.Error()}
 	}
-	return c28Outcome{Kind: "answered", Status: strconv.Itoa(resp.StatusCode)}
+	return c28Outcome{Kind: "answered", Status: strconv.Itoa(resp.StatusCode), Body: string(head)}
 }
 
 func c28DoGRPC(ctx context.Context, conn *grpc.ClientConn, r c28Req, body []byte) c28Outcome {
@@ -658,7 +665,22 @@ func c28RunRequest(c c28Case, fresh bool) vkit.Result {
 		}
 	}()
 	mutated := false
+	hugeDS, accepted := "", 0
+	if c.Drain {
+		hugeDS = fmt.Sprintf("huge%dx%d", os.Getpid(), c28HugeCtr.Add(1))
+		res.Class("family=accepted-but-internally-huge")
+		res.NonTrivial = true
+	}
 	for i, r := range c.Reqs {
+		if c.Drain {
+			// accounting is per dataset: every request of the case goes to a dataset
+			// of its own, with a classic key (dataset taken from path/header)
+			r.Dataset, r.Key = hugeDS, "legacy"
+			r.Pre, r.Post, r.Enc, r.EncHdr = nil, nil, "", ""
+			if r.CT == "" {
+				r.CT = "="
+			}
+		}
 		body, ct, ce := c28Wire(r)
 		if len(r.Pre)+len(r.Post) > 0 {
 			mutated = true
@@ -729,6 +751,9 @@ func c28RunRequest(c c28Case, fresh bool) vkit.Result {
 			}
 			res.Violate("C28/request/"+ep+"/panic-recovered-by-handler@"+ref, "the router logged 'caught panic' (%s) for %s\n%s", p.Msg, desc, c28Tail(c28PanicPart(p.Stack), 1500))
 		}
+		if c.Drain && out.Kind == "answered" {
+			accepted += c28AcceptedEvents(r, out)
+		}
 		if out.Kind == "timeout" {
 			res.Class("inconclusive-timing")
 			res.Obs = desc
@@ -739,6 +764,14 @@ func c28RunRequest(c c28Case, fresh bool) vkit.Result {
 	}
 	if mutated {
 		res.NonTrivial = true
+	}
+	if c.Drain {
+		if conn != nil {
+			conn.Close()
+			conn = nil
+		}
+		c28Drain(&res, w, hugeDS, accepted, c)
+		return res
 	}
 	// still serving?
 	hctx, hcancel := context.WithTimeout(context.Background(), c28RequestDeadline)
@@ -759,6 +792,106 @@ func c28RunRequest(c c28Case, fresh bool) vkit.Result {
 		res.Violate("C28/request/health-check-fails-afterwards", "GET /alive after the case: %s %s", health.Kind, health.Status)
 	}
 	return res
+}
+
+var c28HugeCtr atomic.Int64
+
+// c28AcceptedEvents: a lower bound of the events refinery accepted with this answer.
+func c28AcceptedEvents(r c28Req, out c28Outcome) int {
+	ok := out.Status == "200" || out.Status == "OK"
+	if !ok {
+		return 0
+	}
+	switch {
+	case strings.Contains(strings.ToLower(r.Endpoint), "logs"):
+		return 0 // husky picks the dataset of logs itself; they are not accounted per dataset
+	case r.Target != "grpc" && strings.HasPrefix(r.Endpoint, "/1/batch"):
+		return strings.Count(out.Body, `"status":202`)
+	case r.Target != "grpc" && strings.HasPrefix(r.Endpoint, "/1/events"):
+		return 1
+	case r.Huge != nil:
+		_, _, n := c28HugeBody(r)
+		return n
+	case strings.HasPrefix(r.Base, "otlp-"):
+		return 2 // two spans / two log records in the base bodies
+	}
+	return 0
+}
+
+// c28Drain shuts the SUT down inside the child and watches it from outside.
+// Verdicts: the shutdown burns CPU without ever returning (spin), or it returned
+// and an accepted event was neither forwarded nor reported. Nothing is judged
+// on wall-clock time: a shutdown that is merely slow ends as inconclusive.
+func c28Drain(res *vkit.Result, w *c28Worker, ds string, accepted int, c c28Case) {
+	first := ""
+	for _, r := range c.Reqs {
+		if r.Huge != nil {
+			first = fmt.Sprintf("%s %s %+v", r.Target, r.Endpoint, *r.Huge)
+			break
+		}
+	}
+	desc := fmt.Sprintf("after %d request(s) of the family 'accepted but internally huge' (%s), %d event(s) accepted", len(c.Reqs), first, accepted)
+	if rep, death := w.call(c28Cmd{Op: "drain"}, 60*time.Second); death != nil {
+		c28JudgeDeath(res, death, "request/shutdown", "when the shutdown was started "+desc)
+		return
+	} else if rep.Err != "" {
+		res.Class("inconclusive-infrastructure")
+		res.Obs = rep.Err
+		c28KillWorker()
+		return
+	}
+	pid := w.cmd.Process.Pid
+	cpu0, t0 := c28CPUSeconds(pid), time.Now()
+	for {
+		time.Sleep(200 * time.Millisecond)
+		st, death := w.call(c28Cmd{Op: "drainstatus", Dataset: ds}, 60*time.Second)
+		if death != nil {
+			c28JudgeDeath(res, death, "request/shutdown", "during the shutdown "+desc)
+			return
+		}
+		if st.Err != "" {
+			res.Class("inconclusive-infrastructure")
+			res.Obs = st.Err
+			c28KillWorker()
+			return
+		}
+		if st.Stopped {
+			res.Class("drain=returned")
+			res.Obs = fmt.Sprintf("accepted=%d delivered=%d errors=%d", accepted, st.Delivered, st.Errors)
+			if st.Errors > 0 {
+				res.Class("drain=oversized-event-reported-as-error")
+			}
+			if st.Delivered+st.Errors < accepted {
+				res.Violate("C28/request/shutdown/accepted-event-neither-forwarded-nor-reported",
+					"Router.Stop and DirectTransmission.Stop returned, but of %d accepted event(s) only %d reached the upstream and %d were reported as errors; %s", accepted, st.Delivered, st.Errors, desc)
+			}
+			return
+		}
+		if d := c28CPUSeconds(pid) - cpu0; d >= c28SpinCPUSeconds {
+			frame, blk := "unknown-frame", ""
+			if srep, death := w.call(c28Cmd{Op: "stacks"}, 60*time.Second); death == nil && srep != nil {
+				if f, b := c28BusyFrameIn(srep.Stacks, false, "transmit"); f != "" {
+					frame, blk = f, b
+				}
+			}
+			c28KillWorker()
+			if blk == "" {
+				res.Class("cpu-burnt-outside-refinery-handlers(not judged)")
+				res.Obs = desc
+				return
+			}
+			res.Violate("C28/request/shutdown/cpu-spin-stop-never-returns@"+frame,
+				"the shutdown (Router.Stop, DirectTransmission.Stop) has not returned while the process burnt %.1f CPU-seconds; %s\n--- busy goroutine ---\n%s", d, desc, blk[:min(len(blk), 2200)])
+			return
+		}
+		if time.Since(t0) > 120*time.Second {
+			// neither returned nor burning CPU: could be anything; not judged
+			res.Class("inconclusive-timing")
+			res.Obs = "shutdown did not return within the ceiling; " + desc
+			c28KillWorker()
+			return
+		}
+	}
 }
 
 func TestC28(t *testing.T) {
